@@ -112,31 +112,35 @@ pub fn first_start_end(s: &[u8]) -> Option<usize> {
     None
 }
 
-/// Reference un-escaper position classes used by the cut-off rule of C08: walks
-/// the body of a canonical frame and tells at which offsets no 0x1b run and no
-/// escape sequence is in progress.
-pub fn neutral_cut_offsets(frame: &[u8]) -> Vec<usize> {
-    // offsets are counted in bytes of `frame` kept (cut = frame[..off]); off >= 8
-    let mut res = vec![];
-    let mut run = 0usize; // consecutive 0x1b seen (mod escape handling)
-    let mut in_esc = 0usize; // bytes of an escape payload still expected
-    for off in 8..frame.len() {
-        // state after consuming frame[..off]
-        if off > 8 {
-            let b = frame[off - 1];
-            if in_esc > 0 {
-                in_esc -= 1;
-            } else if b == 0x1b {
-                run += 1;
-                if run == 4 {
-                    run = 0;
-                    in_esc = 4;
-                }
-            } else {
-                run = 0;
-            }
+/// Offsets at which the canonical frame of `p` can be cut such that no 0x1b run
+/// and no escape sequence is in progress (the cut-off rule of C08). Derived from
+/// the construction of the frame, not by re-parsing it: offsets are lengths of
+/// the kept prefix, always >= 8 (the start sequence) and before the end sequence.
+pub fn neutral_cut_offsets(p: &[u8]) -> Vec<usize> {
+    let mut res = vec![8];
+    let mut off = 8;
+    let mut run = 0;
+    for &b in p {
+        off += 1;
+        if b == 0x1b {
+            run += 1;
+        } else {
+            run = 0;
         }
-        if run == 0 && in_esc == 0 {
+        if run == 4 {
+            // the inserted escape follows; only after it the escape is complete
+            off += 4;
+            run = 0;
+        }
+        if run == 0 {
+            res.push(off);
+        }
+    }
+    if run == 0 {
+        // padding zeros
+        let pad = (4 - off % 4) % 4;
+        for _ in 0..pad {
+            off += 1;
             res.push(off);
         }
     }
